@@ -11,6 +11,11 @@ CHECKS = {
             "Every string up to 3 (quick) / 4 (thorough) symbols over a 22-symbol HTML-adversarial alphabet (markup metacharacters, both quotes, NUL/CR/LF/TAB, invalid UTF-8 bytes), entity- and tag-shaped strings, every Unicode scalar value and invalid UTF-8 byte (pairs in thorough) as singletons, through 41 dynamic HTML sinks compiled at check time with the current generator (text in 12 surroundings incl. RCDATA, string and (string,error) attributes, conditional attributes, 9 class container forms, style result, href/action after URL typing, 5 spread forms, JSON script id/type/nonce, script/onclick/JSON nonce from context). The output is tokenized by the reference HTML5 tokenizer: token skeleton equal to the benign render, the slot decodes to exactly the string; x/net/html must agree on the skeleton.",
             "Trusts ref/htmltok (WHATWG tokenizer states, cross-checked against x/net/html on 579k inputs); tokenizer-level, no tree construction; spread attribute names are author-chosen.",
             "4.1", "enum+tgen"),
+    "C02": ("exploration",
+            "program enumeration -> real parser+generator -> go build -> render under 8 valuations vs reference interpreter over an independent AST",
+            "Programs are built from the enumerator's own AST (29 node constructors: text, expressions incl. tight spelling and (string,error) calls, block/inline/void elements single- and multi-line, if / if-else / if-elseif-else, for, switch with and without default, component calls (new and legacy syntax) with and without child blocks to callees that use, repeat or ignore their slot, children slot, raw Go, Go line/block comments, HTML comment, style and script raw elements, doctype): every single constructor in every container, every ordered pair x separator {none, space, newline} x containers (root, block, inline, if body, call block; thorough: all 8 incl. for body and repeated slot), depth-2 container nestings, attribute-kind sequences up to 2/3 of 8 kinds (constant both quotes with character references, boolean, boolean expression, expression, spread, conditional with/without else) on 5 elements; thorough adds constructor triples. Each accepted program is generated with /repo's parser+generator, compiled in parallel batches (a compile failure is a violation) and rendered under 8 valuations (truth assignments, list lengths 0/1/2, strings with HTML metacharacters). The reference interpreter predicts a regular expression over the canonical token serialisation with whitespace classes NONE/SOME/ANY and the exact evaluation log.",
+            "Reference interpreter and printer are mine (tgen/ast.go); SOME is only demanded between text, expressions and a conservative inline-element set; accept rate below 90% aborts as vacuous (100% measured).",
+            "4.2", "tgen"),
     "C03": ("exploration",
             "bounded exhaustive value x JavaScript-position enumeration on compiled templates + every small script body through the real parser, vs reference HTML tokenizer and JS literal lexer/evaluator",
             "Part 1: every string up to 2/3 symbols over a 26-symbol JS/HTML-adversarial alphabet, nested slices/maps/structs/pointers of every string up to 1/2 symbols, numbers/bools/nil/RawMessage, every Unicode scalar value and high byte, through 9 JavaScript positions of templates compiled at check time (bare, ' \" ` literals, on* attribute via JSFuncCall and script template, inline calls, JSON script body): the HTML tokenizer must end the element/attribute where the template ends it without entering the script-data escaped state, and the JS lexer/evaluator must read the emitted text as one literal / one JSON value equal to the Go value's JSON encoding. Part 2: every script body up to 3/4 tokens over a 25-token JS alphabet (strings with the other quote / escaped quotes / comment markers, comments with quotes, regex literals, {{ }} bare and inside each literal kind) is parsed by the real script parser; the output is reconstructed from the parse tree and the real escapers for 13 adversarial values and each slot is evaluated in its TRUE lexical context decided by the reference JS lexer. Part 3: the reconstruction is validated against compiled templates.",
